@@ -269,6 +269,63 @@ def write_check():
     return n, bad
 
 
+REAL_READER_CELL = r'''
+import os, sys, json, zlib
+sys.path.insert(0, "/repo/src")
+import execnet
+assert execnet.__file__.startswith("/repo/src")
+transport, prog = sys.argv[1:3]
+sizes = json.loads(sys.argv[3])
+g = execnet.Group()
+if transport == "popen":
+    gw = g.makegateway("popen")
+elif transport == "python":
+    gw = g.makegateway("popen//python=%s" % sys.executable)
+else:
+    g.makegateway("popen//id=m")
+    gw = g.makegateway("popen//via=m")
+READER = {
+ # something else in the worker reads "standard input" while frames are coming in
+ "fd0": "import os, threading\ndef rd():\n    while os.read(0, 65536):\n        pass\nthreading.Thread(target=rd, daemon=True).start()",
+ "child": "import subprocess, sys\nsubprocess.Popen([sys.executable, '-c', 'import sys, signal; signal.alarm(60); sys.stdin.buffer.read()'])",
+ "none": "pass",
+}[prog]
+ch = gw.remote_exec(READER + "\nimport zlib\nchannel.send('up')\nfor x in channel:\n    channel.send((len(x), zlib.crc32(x)))")
+out = []
+try:
+    ch.receive(20)
+    for n in sizes:
+        data = bytes((i * 7 + n) % 251 for i in range(min(n, 1000))) * (n // 1000 + 1)
+        data = data[:n]
+        ch.send(data)
+        out.append(list(ch.receive(20)) == [len(data), zlib.crc32(data)])
+except Exception as e:
+    out.append("EXC %s %s" % (type(e).__name__, str(e)[:80]))
+try:
+    g.terminate(2)
+except Exception:
+    pass
+print(json.dumps(out))
+'''
+
+
+def real_reader_cell(cell):
+    import json
+    import os
+    import subprocess
+    import sys
+
+    transport, prog, sizes = cell
+    env = dict(os.environ)
+    env["PYTHONPATH"] = "/repo/src"
+    try:
+        r = subprocess.run([sys.executable, "-c", REAL_READER_CELL, transport, prog, json.dumps(sizes)], capture_output=True, text=True, timeout=180, env=env, stdin=subprocess.DEVNULL)
+        line = r.stdout.strip().splitlines()[-1] if r.stdout.strip() else f"NO-OUTPUT rc={r.returncode} {r.stderr[-300:]}"
+    except subprocess.TimeoutExpired:
+        line = "TIMEOUT"
+    return cell, line
+
+
 def run(tier: str, only=None) -> int:
     rep = evidence.Report(PID, tier, "model_checking")
     rep.rule.append("all 8 message codes x 5 channel ids (full signed 32-bit range) x payload lengths; ALL compositions of the byte stream into low-level reads for streams <= 14 bytes, all chunkings with <= 3 boundaries for longer streams and 2-message sequences, through Popen2IO / SocketIO / ProxyIO reads; concurrent senders on one gateway over virtual popen / socket / via with sendall split deviations under all interleavings within bounds")
@@ -332,6 +389,24 @@ def run(tier: str, only=None) -> int:
                 bounds = ({"ps": 1, "env": 1, "free": 1} if tr == "socket" else {"ps": 1, "free": 0}) if tier == "quick" else {"ps": 2, "env": 1, "free": 1}
                 harness.run_exploration(rep, PID, name, MixScn, P, bounds, max_execs=cap)
     rep.assumptions += ["BufferedWriter.write of a pipe is atomic per call (popen path); socket sendall is a loop of partial sends whose split points are environment choices", "virtual primitives as in DESIGN 7"]
+    # --- real processes: frames of every size class while something else in the worker reads stdin ----
+    if not only or "real" in only:
+        import json
+
+        sizes = [0, 1, 9, 4095, 4096, 65535, 65536, 65537, 300000] + ([4 * 1024 * 1024 + 1] if tier != "quick" else [])
+        cells = [(tr, prog, sizes) for tr in ("popen", "python", "via") for prog in ("none", "fd0", "child")]
+        res = pmap(lambda chunk: [real_reader_cell(x) for x in chunk], [cells[i::9] for i in range(9)])
+        for chunk in res:
+            for cell, line in chunk:
+                try:
+                    ok = json.loads(line) == [True] * len(sizes)
+                except ValueError:
+                    ok = False
+                if not ok:
+                    again = real_reader_cell(cell)[1]
+                    if again != json.dumps([True] * len(sizes)):
+                        rep.violation(f"c08:real-frames-lost:{cell[1]}", f"real {cell[0]} gateway while '{cell[1]}' reads the worker's standard input: echo of frames of sizes {sizes} -> {line} / {again}", {"check": PID, "sub": "real", "cell": [cell[0], cell[1]]})
+        rep.add_enumeration("real-second-reader-cells", len(cells) * len(sizes), len(cells))
     return rep.finish()
 
 
